@@ -137,6 +137,24 @@ func stressAdapterLeaks(seed int64, scale int) int {
 				w.Write([]byte("unavailable, try again"))
 				return
 			}
+		case "stall":
+			// the first attempt of a call is told to retry by a response whose body never ends (headers and a first piece are
+			// flushed, then the handler hangs until the client goes away): nothing may wait for that body
+			c, _ := hrCalls.LoadOrStore("stall-"+r.URL.Query().Get("call"), new(atomic.Int32))
+			if c.(*atomic.Int32).Add(1) == 1 {
+				w.Header().Set("Retry-After", "0")
+				w.Header().Set("Content-Length", "1000000")
+				w.WriteHeader(503)
+				w.Write([]byte("unavailable, and the rest of this body never arrives"))
+				if fl, ok := w.(http.Flusher); ok {
+					fl.Flush()
+				}
+				select {
+				case <-r.Context().Done():
+				case <-time.After(5 * time.Second):
+				}
+				return
+			}
 		case "fail":
 			w.WriteHeader(500)
 			w.Write([]byte("broken"))
@@ -235,6 +253,23 @@ func stressAdapterLeaks(seed int64, scale int) int {
 			resp.Body.Close()
 		}
 		v.count("http/hedge-around-retry")
+	}
+	// a retried response whose body stalls: the retry goes ahead, and neither a goroutine nor the connection stays behind
+	for i := 0; i < runs/12+1; i++ {
+		ex := failsafe.NewExecutor[*http.Response](failsafehttp.RetryPolicyBuilder().WithMaxRetries(2).Build())
+		req, _ := http.NewRequestWithContext(callerCtx, "POST", fmt.Sprintf("%s/?mode=stall&call=%d", srv.URL, i), strings.NewReader("request-body"))
+		t0 := time.Now()
+		resp, err := (&http.Client{Transport: failsafehttp.NewRoundTripperWithExecutor(ct, ex)}).Do(req)
+		if err != nil || resp == nil || resp.StatusCode != 200 {
+			v.add(fmt.Sprintf("retried response with a stalled body: the second attempt succeeds, yet the call returned %v", err))
+		} else if time.Since(t0) > 2*time.Second {
+			v.add("retried response with a stalled body: the retry waited for the body")
+		}
+		if resp != nil && resp.Body != nil {
+			io.Copy(io.Discard, resp.Body)
+			resp.Body.Close()
+		}
+		v.count("http/retried-body-stalls")
 	}
 	// response bodies whose Close reports an error (a wrapping transport may do that): the attempt's context is released all
 	// the same, also when it had to be merged from a context of a non-standard type
